@@ -146,8 +146,22 @@ def dt_model(culture):
     return lib.model('DateTimeRecognizer', 'DateTimeModel', culture)
 
 
+OPT_MODELS = {}
+
+
+def dt_model_opt(culture, opt):
+    """the culture's DateTimeModel of a recogniser built with DateTimeOptions(opt)"""
+    from recognizers_date_time import DateTimeRecognizer, DateTimeOptions
+    k = (culture, opt)
+    if k not in OPT_MODELS:
+        OPT_MODELS[k] = DateTimeRecognizer(culture, DateTimeOptions(opt), False).get_datetime_model(culture, False)
+    return OPT_MODELS[k]
+
+
 def rand_ref(r):
-    return dt.datetime(r.randrange(1950, 2091), r.randrange(1, 13), r.randrange(1, 29), r.randrange(24), r.randrange(60), r.choice([0, r.randrange(60)]))
+    # a share of the references carries microseconds, as datetime.now() does
+    return dt.datetime(r.randrange(1950, 2091), r.randrange(1, 13), r.randrange(1, 29), r.randrange(24), r.randrange(60), r.choice([0, r.randrange(60)]),
+                       r.choice([0, 0, 0, r.randrange(1, 10 ** 6)]))
 
 
 def rand_date(r):
@@ -170,7 +184,7 @@ def boundary_refs():
 def refs(r, n):
     out = list(boundary_refs())
     for _ in range(n):
-        out.append(dt.datetime(1950, 1, 1) + dt.timedelta(days=r.randrange(51500), seconds=r.choice([0, r.randrange(86400)])))
+        out.append(dt.datetime(1950, 1, 1) + dt.timedelta(days=r.randrange(51500), seconds=r.choice([0, r.randrange(86400)]), microseconds=r.choice([0, 0, r.randrange(1, 10 ** 6)])))
     return out
 
 
